@@ -1,9 +1,9 @@
 #!/bin/sh
 # parallel seed runs: parseeds.sh <workers> <listfile> ; listfile lines: "<--r2|--r3> <group> <i> [checks...]"
 # each worker has its own copy of /verif and its own worktree of /repo (VERIF_REPO), so /repo itself is never touched
-W=$1; LIST=$2
+W=$1; LIST=$2; B=${PAR_BASE:-0}   # PAR_BASE: first worker number minus one (so that two runs can coexist)
 mkdir -p /tmp/par
-for k in $(seq 1 $W); do
+for k in $(seq $((B+1)) $((B+W))); do
   [ -d /tmp/par/repo$k ] || git -C /repo worktree add -f /tmp/par/repo$k HEAD >/dev/null 2>&1
   git -C /tmp/par/repo$k checkout -- . 2>/dev/null
   git -C /tmp/par/repo$k clean -fdq 2>/dev/null
@@ -11,24 +11,24 @@ for k in $(seq 1 $W); do
   rsync -a --delete --exclude seeded /verif/ /tmp/par/verif$k/
   mkdir -p /tmp/par/verif$k/seeded
 done
-: > /tmp/par/jobs.txt
+: > /tmp/par/jobs$B.txt
 # all seeds of one group go to one worker (their confirmation step shares the group's scratch worktree)
-/venv/bin/python - "$W" "$LIST" <<'PY'
+/venv/bin/python - "$W" "$LIST" "$B" <<'PY'
 import sys
-W=int(sys.argv[1]); groups={}
-with open('/tmp/par/jobs.txt','w') as out:
+W=int(sys.argv[1]); B=int(sys.argv[3]); groups={}
+with open(f'/tmp/par/jobs{B}.txt','w') as out:
     for line in open(sys.argv[2]):
         line=line.strip()
         if not line: continue
         g=line.split()[1]
-        k=groups.setdefault(g, len(groups) % W + 1)
+        k=groups.setdefault(g, B + len(groups) % W + 1)
         out.write(f"{k} {line}\n")
 PY
-for k in $(seq 1 $W); do
-  ( grep "^$k " /tmp/par/jobs.txt | cut -d' ' -f2- | while read -r args; do
+for k in $(seq $((B+1)) $((B+W))); do
+  ( grep "^$k " /tmp/par/jobs$B.txt | cut -d' ' -f2- | while read -r args; do
       echo "=== $args"
       cd /tmp/par/verif$k && VERIF_REPO=/tmp/par/repo$k VERIF_JOBS=4 /venv/bin/python harness/seedtest.py $args
     done > /tmp/par/log$k.txt 2>&1 ) &
 done
 wait
-cat /tmp/par/log*.txt | grep -E "^===|detected by|NOT CONFIRMED|does not apply"
+for k in $(seq $((B+1)) $((B+W))); do cat /tmp/par/log$k.txt; done | grep -E "^===|detected by|NOT CONFIRMED|does not apply"
